@@ -342,3 +342,43 @@ def lint_falsy_default(rep: Report, fi: FuncInfo, rule: str) -> int:
     else:
         rep.ok(rule, fi, f"{fi.name}: parameters {sorted(params)}", "not defaulted by truthiness (an explicit 0 is kept)", nontrivial=False)
     return 1
+
+
+CLAMPING = {"clamp", "clip", "clamp_max", "minimum", "min"}
+
+
+def lint_logistic_overflow(rep: Report, fis, rule: str, where: str, bound: str = "|LLR| up to 1e3") -> int:
+    """`r / (c + r)` (or `r / (r + c)`) with r = exp(t) and t not clamped is inf / inf = NaN as soon as exp(t) overflows
+    (t > 88.7 in float32, 709 in float64), although the quotient tends to 1.  Expected count: zero (the repository uses
+    torch.sigmoid).  One obligation for the whole list of functions."""
+    found = []
+    for fi in fis:
+        defs = {}
+        for a in ast.walk(fi.node):
+            if isinstance(a, ast.Assign) and len(a.targets) == 1 and isinstance(a.targets[0], ast.Name):
+                defs.setdefault(a.targets[0].id, []).append(a.value)
+
+        def as_exp(e):
+            if isinstance(e, ast.Name) and len(defs.get(e.id, ())) == 1:
+                e = defs[e.id][0]
+            if isinstance(e, ast.Call) and (call_name(e) or unparse(e.func)).split(".")[-1] == "exp":
+                arg = e.args[0] if e.args else (e.func.value if isinstance(e.func, ast.Attribute) else None)
+                if arg is None or any(isinstance(c, ast.Call) and (call_name(c) or unparse(c.func)).split(".")[-1] in CLAMPING for c in ast.walk(arg)):
+                    return None
+                if isinstance(arg, ast.Name) and len(defs.get(arg.id, ())) == 1 and any(isinstance(c, ast.Call) and (call_name(c) or unparse(c.func)).split(".")[-1] in CLAMPING for c in ast.walk(defs[arg.id][0])):
+                    return None
+                return e
+            return None
+
+        for d in ast.walk(fi.node):
+            if isinstance(d, ast.BinOp) and isinstance(d.op, ast.Div) and isinstance(d.right, ast.BinOp) and isinstance(d.right.op, ast.Add):
+                num = unparse(d.left)
+                if num in (unparse(d.right.left), unparse(d.right.right)):
+                    ex = as_exp(d.left)
+                    if ex is not None:
+                        found.append((fi, d, ex))
+    for fi, d, ex in found:
+        rep.violation(rule, fi, f"{unparse(d)[:80]}", f"`{unparse(ex)[:50]}` overflows to inf once its argument exceeds 88.7 (float32), and inf / (c + inf) is NaN although the quotient tends to 1: within {bound} the conversion returns NaN instead of a probability near 1, so it is neither sigmoid of the argument nor monotone, and a threshold test on it decides the wrong bit", node=d)
+    if not found:
+        rep.ok(rule, where, f"exp(t) / (c + exp(t)) quotients with unclamped t in {len(list(fis))} functions: 0", "probabilities are formed by torch.sigmoid or by 1 / (1 + exp(t)), which saturate instead of producing inf / inf", nontrivial=False)
+    return 1
